@@ -32,6 +32,25 @@ type specCtx struct {
 	splitTerm *Term
 }
 
+// tryEvalPtr evaluates x if it denotes a pointer-typed value (used by & to find the base of a selector chain).
+func (c *specCtx) tryEvalPtr(x SExpr) (v Val, t types.Type, ok bool) {
+	defer func() {
+		if r := recover(); r != nil {
+			if _, isSE := r.(specErr); isSE {
+				ok = false
+				return
+			}
+			panic(r)
+		}
+	}()
+	v, t = c.eval(x)
+	if t == nil {
+		return v, t, false
+	}
+	_, ok = t.Underlying().(*types.Pointer)
+	return v, t, ok
+}
+
 // ghostArr returns the ghost array of the given name in the state the context reads (current, or old inside old(...)).
 func (c *specCtx) ghostArr(name string, sort Sort) *Term {
 	var m map[string]*Term
@@ -205,21 +224,48 @@ func (c *specCtx) eval(x SExpr) (Val, types.Type) {
 			if !ok {
 				c.fail("& needs a field selector")
 			}
-			bv, bt := c.eval(sel.X)
-			p, isPtr := bt.Underlying().(*types.Pointer)
-			if !isPtr {
-				c.fail("& of a field of a non-pointer")
+			// selector chain p.f.g...: walk down to the pointer-typed base, then follow the struct-valued fields
+			var names []string
+			var base SExpr = sel
+			var bv Val
+			var bt types.Type
+			for {
+				s2, ok := base.(*SSel)
+				if !ok {
+					c.fail("& of a field of a non-pointer")
+				}
+				names = append([]string{s2.Name}, names...)
+				v2, t2, ok2 := c.tryEvalPtr(s2.X)
+				if ok2 {
+					bv, bt = v2, t2
+					break
+				}
+				base = s2.X
 			}
-			obj, path := lookupFieldAnyPkg(bt, sel.Name)
-			if obj == nil || len(path) != 1 {
-				c.fail("&: cannot resolve direct field %s", sel.Name)
-			}
-			f := p.Elem().Underlying().(*types.Struct).Field(path[0])
+			p := bt.Underlying().(*types.Pointer)
 			px := c.e.ptrOf(bv, p.Elem())
 			np := *px
-			np.Path = px.Path + "." + f.Name()
-			np.PType = f.Type()
-			return Val{T: []*Term{tb.Int(-3)}, Ann: map[string]Ann{"": &np}}, types.NewPointer(f.Type())
+			var T types.Type = p.Elem()
+			for _, nm := range names {
+				st, ok := T.Underlying().(*types.Struct)
+				if !ok {
+					c.fail("&: %s is not a struct", T)
+				}
+				found := false
+				for i := 0; i < st.NumFields(); i++ {
+					if st.Field(i).Name() == nm {
+						np.Path += "." + nm
+						T = st.Field(i).Type()
+						found = true
+						break
+					}
+				}
+				if !found {
+					c.fail("&: cannot resolve direct field %s", nm)
+				}
+			}
+			np.PType = T
+			return Val{T: []*Term{tb.Int(-3)}, Ann: map[string]Ann{"": &np}}, types.NewPointer(T)
 		}
 		v, t := c.eval(n.X)
 		if n.Op == "*" {
